@@ -5,10 +5,10 @@ d="$1"; id=$(basename "$d"); wt=/tmp/wtc_$id
 git -C /repo worktree add -q --detach "$wt" HEAD || exit 2
 res() { echo "$id: $*"; }
 ( cd "$wt"
-  g++ -std=c++17 -DAMC_NONSTD_FEATURES -I"$wt/include" "$d/demo.cpp" -o /tmp/demo_$id.clean 2>/tmp/demo_$id.err || { res "demo does not compile on clean tree"; exit 0; }
+  g++ -std=${DEMO_STD:-c++17} -DAMC_NONSTD_FEATURES -I"$wt/include" "$d/demo.cpp" -o /tmp/demo_$id.clean 2>/tmp/demo_$id.err || { res "demo does not compile on clean tree"; exit 0; }
   /tmp/demo_$id.clean >/dev/null 2>&1; rc_clean=$?
   if ! git apply "$d/patch.diff"; then res "patch does not apply"; exit 0; fi
-  g++ -std=c++17 -DAMC_NONSTD_FEATURES -I"$wt/include" "$d/demo.cpp" -o /tmp/demo_$id.seed 2>>/tmp/demo_$id.err || { res "demo does not compile with change"; exit 0; }
+  g++ -std=${DEMO_STD:-c++17} -DAMC_NONSTD_FEATURES -I"$wt/include" "$d/demo.cpp" -o /tmp/demo_$id.seed 2>>/tmp/demo_$id.err || { res "demo does not compile with change"; exit 0; }
   timeout 120 /tmp/demo_$id.seed >/dev/null 2>&1; rc_seed=$?
   cmake -G Ninja -S . -B _build -DCMAKE_BUILD_TYPE=Release >/dev/null 2>&1 && cmake --build _build >/dev/null 2>&1; rc_build=$?
   tests="not run"; if [ $rc_build -eq 0 ]; then ctest --test-dir _build -j8 --timeout 900 2>&1 | grep -q "100% tests passed" && tests=pass || tests=FAIL; fi
